@@ -1,11 +1,12 @@
 """C14 — parallel.MapIterator / MapStream keep order, bound the buffer, never deadlock."""
 import vlib
+from scale_common import ScaleSpec
 from parmap_common import MapIterSpec, MapStreamSpec
 
 PROP_FILES = ["C14"]
 
 
-SPECS = {"mapiter": (MapIterSpec(), "harness_parmap", "runner-parmap"), "mapstream": (MapStreamSpec(), "harness_parmap", "runner-parmap")}
+SPECS = {"scale": (ScaleSpec(['mapiter']), "harness", "runner"), "mapiter": (MapIterSpec(), "harness_parmap", "runner-parmap"), "mapstream": (MapStreamSpec(), "harness_parmap", "runner-parmap")}
 
 
 def run(ctx):
@@ -17,6 +18,9 @@ def run(ctx):
         return ctx.finish()
     vlib.seq_differential(ctx, MapIterSpec(), exe, proofs_ok, tag="mapiter")
     vlib.seq_differential(ctx, MapStreamSpec(), exe, proofs_ok, tag="mapstream")
+    okS, outS, exeS = vlib.build_runner()
+    if okS:
+        vlib.seq_differential(ctx, ScaleSpec(['mapiter']), exeS, proofs_ok, tag="scale")
     vlib.merge_parts(ctx, "cases = controller scripts (request Next/Close calls, release the gates of f and of the source in orders in which "
                      "late items finish first, cancel the caller's / the per-call contexts, quiesce) run against the real MapIterator and "
                      "MapStream; each recorded history must be accepted by the LTS model (some schedule produces it and every quiescence "
